@@ -98,6 +98,16 @@ CHECKS.update({
     ),
 })
 
+CHECKS.update({
+    "C15": dict(
+        engine="E1 + pool driver",
+        category="exploration",
+        text="A pool buffer filled by the simulated kernel (slot varied by earlier reads, pool memory canaried) undergoes a generated edit sequence (truncate, clear, remove with every range form incl. overflowing bounds, set_len, extend_from_slice, spare_capacity_mut writes, re-reads) compared call by call with a capacity-limited byte vector; canaries of all other slots and the released slot identity are checked.",
+        design_ref="5/C15",
+        technique="differential property-based testing against a reference byte-vector model with canaries",
+    ),
+})
+
 NOT_YET = {
 }
 
